@@ -140,7 +140,8 @@ def crafted_instances():
     # an efficiency sweep on a live model: mating re-declared after the Solver exists, and again after reset
     sweep = sched(4)
     sweep.insert(2, {'op': 'redeclare', 'i': 2, 'arg': F(19, 25)})
-    sweep += [{'op': 'reset'}, {'op': 'set_initial', 'pos': F(0), 'spd': F(0)}, {'op': 'redeclare', 'i': 2, 'arg': F(3, 5)},
+    sweep += [{'op': 'redeclare', 'i': 2, 'arg': F(1, 2)}, {'op': 'run', 'sid': 1, 'dt': dt, 'T': dt * 3, 'dt_unit': 'sec', 'T_unit': 'sec'},
+              {'op': 'reset'}, {'op': 'set_initial', 'pos': F(0), 'spd': F(0)}, {'op': 'redeclare', 'i': 2, 'arg': F(3, 5)},
               {'op': 'run', 'sid': 1, 'dt': dt, 'T': dt * 4, 'dt_unit': 'sec', 'T_unit': 'sec'}]
     out.append(('efficiency_sweep', {'elems': [motor, {'kind': 'SpurGear', 'J': F(1, 10**6), 'teeth': 10, 'rel': {'type': 'joint', 'arg': None}},
                                                 {'kind': 'SpurGear', 'J': F(1, 10**5), 'teeth': 30, 'rel': {'type': 'gear', 'arg': F(4, 5)}}],
